@@ -22,6 +22,7 @@ def run(tier, rep):
              sessions=500 if tier == "quick" else 6000, nontrivial=multi, rule=RULE,
              invariants=["TypeOK", "Exact", "Monotone", "NoOpOnEmptyDoc", "AlgebraInv", "ResultWF"],
              case_filter=lambda m: m.get("ncalls", 1) >= 2, relation=relation, damage=15)
+    pc.mechanism_trace(rep, "C06", 100 if tier == "quick" else 2000)
     rep.assumptions += ["'schema' is compared as the statement lists it: fields by XML name, optionality, multiplicity, text "
                         "flags, nesting — not Rust identifiers or field order (those legitimately depend on document order)",
                         "an element-less document can only be supplied to extend (a parse of it is an error by C08)"]
